@@ -2,17 +2,16 @@
 """Runs every seeded change against the checks that could see it (scratch copy of /repo, selftest mode) and writes
 /verif/seeded/<id>/meta.json: which property it breaks, what it needs to manifest, what was run, which checks catch it."""
 import json, os, re, subprocess, sys, tempfile, shutil, glob
-REL = {'C01':['C01','C03'],'C03':['C03','C01','C06'],'C04':['C04','C05'],'C05':['C05','C04'],'C06':['C06','C07'],'C07':['C07','C06'],
+REL = {'C01':['C01','C03'],'C03':['C03','C01','C06'],'C04':['C04','C05','C06'],'C05':['C05','C04'],'C06':['C06','C07'],'C07':['C07','C06'],
        'C08':['C08','C05'],'C09':['C09','C16'],'C10':['C10','C16'],'C11':['C11'],'C13':['C13'],'C14':['C14','C03'],'C15':['C15'],
        'C16':['C16','C09','C10'],'C19':['C19'],'C20':['C20']}
 env = dict(os.environ, GOFLAGS='-mod=mod', GOPROXY='off', GOSUMDB='off', GOTOOLCHAIN='local', GOVC_SELFTEST='1')
 only = sys.argv[1:]
-for d in sorted(glob.glob('/verif/seeded/C*')):
+def one(d):
     sid = os.path.basename(d)
-    if only and sid not in only: continue
     prop = sid.split('-')[0]
     readme = open(d+'/README.md').read()
-    m = re.search(r'##\s*What it needs[^\n]*\n(.*?)(?=\n## )', readme, re.S)
+    m = re.search(r'##[^\n]*(?:[Ww]hat it needs|[Tt]rigger|[Nn]eeds)[^\n]*\n(.*?)(?=\n## |\Z)', readme, re.S)
     needs = ' '.join(m.group(1).split()) if m else ''
     title = readme.splitlines()[0].lstrip('# ').strip()
     confirm = ''
@@ -39,4 +38,10 @@ for d in sorted(glob.glob('/verif/seeded/C*')):
             'ran': ran, 'caught_by': caught, 'failing_obligations': detail,
             'status': 'caught' if caught else 'missed'}
     json.dump(meta, open(d+'/meta.json','w'), indent=1)
-    print(sid, 'caught by', caught if caught else 'NOTHING')
+    print(sid, 'caught by', caught if caught else 'NOTHING', flush=True)
+
+if __name__ == '__main__':
+    from multiprocessing import Pool
+    ds=[d for d in sorted(glob.glob('/verif/seeded/C*')) if not only or os.path.basename(d) in only]
+    with Pool(4) as pool:
+        pool.map(one, ds)
